@@ -51,6 +51,7 @@ def rules_block():
     import importlib
     import sys
     sys.path[:0] = [os.environ.get('VERIF_REPO', '/repo'), V, os.path.join(V, '.deps')]
+    from vlib.runner import REPORTED_RULE
     import cssutils
     cssutils.log.setLevel(60)
     out = []
@@ -66,7 +67,7 @@ def rules_block():
             else:
                 out.append('* `%s` — %s / %s generated cases' % (sub.name, sub.n['quick'], sub.n['thorough']))
         out.append('')
-        out.append('Domain, oracle and non-triviality rule (this text is also written to the evidence file): ' + mod.RULE)
+        out.append('Domain, oracle and non-triviality rule (this text is also written to the evidence file): ' + mod.RULE + (REPORTED_RULE if any(x.name == 'reported' for x in mod.SUBS) else ''))
         out.append('')
         out.append('Assumptions: ' + '; '.join(mod.ASSUMPTIONS) + '.')
         out.append('')
